@@ -30,6 +30,4 @@ From Coq Require Import Floats.
 Corollary crowding_guard_gen_float : forall range, crowding_guard_gen_f range = PrimFloat.ltb 0%float range.
 Proof. exact (crowding_guard_gen_eq_model PrimFloat.ltb 0%float). Qed.
 
-Print Assumptions crowding_guard_gen_eq_model.
-Print Assumptions crowding_guard_gen_upd.
-Print Assumptions crowding_guard_gen_float.
+(* Print Assumptions of the theorems above is run by harness/core.py translated_obligations (qualified names, whitelist) *)
